@@ -22,7 +22,7 @@ pub fn derived_filters(e: &MEvent) -> Vec<(String, MFilter)> {
     v.push(("time-window".to_string(), MFilter { since: Some(e.created_at), until: Some(e.created_at), ..Default::default() }));
     v.push(("kind+time-window".to_string(), MFilter { kinds: vec![e.kind], since: Some(e.created_at), until: Some(e.created_at), ..Default::default() }));
     for t in &e.tags {
-        if t.len() >= 2 && t[0].len() == 1 && t[0].as_bytes()[0].is_ascii_alphabetic() {
+        if t.len() >= 2 && t[0].len() == 1 {
             let tf = MFilter { tags: vec![(t[0].clone(), vec![t[1].clone()])], ..Default::default() };
             v.push(("tag".to_string(), tf.clone()));
             let mut a = tf.clone();
@@ -62,6 +62,7 @@ impl Prop for C17 {
             reopen: 0,
             rebuild: 0,
             extra: 0,
+            pressure: 0,
         };
         history(w, EvCfg::default(), tier.pick(25, 80)).prop_map(|ops| Case { ops }).boxed()
     }
